@@ -82,7 +82,7 @@ def run_mixed_case(seed, i, tier, K=None, compare_schedules=False):
     import layouts
     rng = core.rng_for(seed, PROP, i)
     opts = ["--color", "never", "--tz-offset", "+00:00", "--separator", MARK]
-    kinds = rng.sample(("evtx", "journal", "utmp", "text", "text2"), rng.randint(2, 4))
+    kinds = rng.sample(("evtx", "journal", "gjournal", "gjournal2", "utmp", "text", "text2"), rng.randint(2, 4))
     srcs = []     # (path, data, [(instant_ns, bytes)])
     NS = 1_000_000_000
     # the shipped inputs live in these time ranges; generated sources are placed inside them so the merge interleaves
@@ -105,6 +105,24 @@ def run_mixed_case(seed, i, tier, K=None, compare_schedules=False):
             if len(msgs) != len(ents):
                 continue
             srcs.append(("j.journal", data, [(ents[j]["rt"] * 1000, msgs[j]) for j in range(len(msgs))]))
+        elif k in ("gjournal", "gjournal2"):
+            # generated journal (sim/journalgen.py) whose receive times fall on / between the other sources' instants
+            import journalgen
+            n = rng.randint(1, 12)
+            inst = sorted((rng.randint(t_lo, t_hi) // 1000 if rng.random() < 0.5 else rng.choice(evtx_recs)[2] // 1000) for _ in range(n))
+            gents = journalgen.gen_entries(rng, n, tag=b"G" if k == "gjournal" else b"H")
+            for (e, t_us) in zip(gents, inst):
+                e.rt = t_us
+                e.fields.append((b"_BOOT_ID", e.boot.hex().encode()))
+            data = journalgen.build(gents, rng)
+            ents = c09.dump_bytes(data)
+            if [e["rt"] for e in ents] != inst:
+                raise RuntimeError("generated journal is not read back as written")
+            path = "g.journal" if k == "gjournal" else "h.journal"
+            msgs, tail, _ = solo_messages("journal", "gen-%d-%s" % (i, k), data, path, opts)
+            if len(msgs) != len(ents):
+                continue
+            srcs.append((path, data, [(inst[j] * 1000, msgs[j]) for j in range(len(msgs))]))
         elif k == "utmp":
             name = rng.choice(sorted(layouts.LAYOUTS))
             size, so, ss, uo, us, fields, fname, *_ = layouts.LAYOUTS[name]
